@@ -13,7 +13,9 @@ import (
 
 	"0chain.net/core/encryption"
 
+	"github.com/0chain/common/core/logging"
 	"github.com/herumi/bls-go-binary/bls"
+	"go.uber.org/zap"
 
 	vc "verif/harness/common"
 	"verif/harness/rec"
@@ -46,6 +48,8 @@ func Run(a vc.Args) {
 		defer d.w.Close()
 		d.mc = newMinerEnv(d.w)
 	case "C34":
+		// no chain needed; the library code logs through the global logger
+		logging.Logger = zap.NewNop()
 	default:
 		rec.Fatal("crypto: unknown prop %q", a.Prop)
 	}
